@@ -206,7 +206,7 @@ package tmstate
 
 //@ func StateMachine.handleTimerElapsed
 //@   property C08 C12 C07 C09
-//@   requires TimerInv(rlc) && timedStep(rlc.S) && rlc.VRV != nil && smReady(m, rlc)
+//@   requires TimerInv(rlc) && timedStep(rlc.S) && rlc.VRV != nil && smReady(m, rlc) && FinInv(rlc)
 //@   requires rlc.S == tsi.StepAwaitingProposal ==> rlc.PrevoteHashCh != nil
 //@   requires rlc.S == tsi.StepPrevoteDelay ==> rlc.PrecommitHashCh != nil
 //@   ensures timer-inv-kept: TimerInv(rlc) || Idle(rlc)
